@@ -323,27 +323,34 @@ func (w *World) checkNumericBuiltins(P string, f *Facts, r *Roles) {
 		if fn := single(name); fn != nil {
 			ok := false
 			detail := "no success return found"
-			allInstrs(fn, func(in ssa.Instruction) {
-				ret, isRet := in.(*ssa.Return)
-				if !isRet || len(ret.Results) != 2 || !isNilConst(ret.Results[1]) {
-					return
-				}
-				v := stripConvAll(ret.Results[0])
+			for _, sr := range successReturns(fn, "exec") {
+				v := stripConvAll(sr.Val)
 				c, isCall := v.(*ssa.Call)
-				if !isCall || staticCallee(c) == nil {
+				if !isCall {
 					detail = "returns " + describe(v)
-					return
+					continue
 				}
-				got := funcFullName(staticCallee(c))
+				// the function applied: called directly, or received as a function value by a shared helper
+				var applied *ssa.Function
+				if sc := staticCallee(c); sc != nil {
+					applied = sc
+				} else if fv, isFn := sr.resolve(c.Call.Value).(*ssa.Function); isFn {
+					applied = fv
+				}
+				if applied == nil {
+					detail = "returns the result of " + describe(c.Call.Value)
+					continue
+				}
+				got := funcFullName(applied)
 				argOK := false
 				if len(c.Call.Args) == 1 {
 					if rcv, isNum := isMethodCall(stripConvAll(c.Call.Args[0]), "Number"); isNum {
-						argOK = sliceContains(rcv, func(v ssa.Value) bool { return v == argsParam(fn) })
+						argOK = sr.contains(rcv, func(v ssa.Value) bool { return v == argsParam(fn) })
 					}
 				}
 				ok = got == callee && argOK
 				detail = fmt.Sprintf("returns %s(arg.Number()): callee %s, argument is Number() of the function argument: %v", callee, got, argOK)
-			})
+			}
 			w.check(P, "R06.4", "builtin "+name, fn.Pos(), ok, detail)
 		}
 	}
@@ -378,16 +385,19 @@ func (w *World) checkNumericBuiltins(P string, f *Facts, r *Roles) {
 				return
 			}
 			if b.Info()&types.IsFloat == 0 {
+				// the loop counter of an index loop is not the accumulator
+				if phiV, _ := bo.X.(*ssa.Phi); phiV != nil && (ascendingCounter(phiV) || isCounterPhi(phiV)) {
+					return
+				}
+				if phiV, _ := bo.Y.(*ssa.Phi); phiV != nil && (ascendingCounter(phiV) || isCounterPhi(phiV)) {
+					return
+				}
 				accDetail = "the accumulator is of type " + b.Name() + ", not float64"
 				return
 			}
-			if _, isNum := isMethodCall(stripConvAll(other), "Number"); isNum {
+			if w.isNumberOfNode(stripConvAll(other), 0) {
 				okAcc = true
-				accDetail = "float64 accumulator adds Number() of each node"
-			} else if c, isCall := stripConvAll(other).(*ssa.Call); isCall && w.isStringToNumber(staticCallee(c)) && len(c.Call.Args) == 1 && isStringValueOfElem(c.Call.Args[0], w) {
-				// the same two steps NodeSet.Number() takes, spelled out: number(string-value(node))
-				okAcc = true
-				accDetail = "float64 accumulator adds the number of each node's string-value (the conversion NodeSet.Number() uses)"
+				accDetail = "float64 accumulator adds the number of each node (Number() of it, the spelled-out number(string-value(node)), or a helper of the package that returns exactly that)"
 			} else {
 				accDetail = "the added term is not Number() of a node"
 			}
@@ -539,4 +549,44 @@ func isStringValueOfElem(v ssa.Value, w *World) bool {
 	}
 	_, ok = ld.X.(*ssa.IndexAddr)
 	return ok
+}
+
+// isNumberOfNode: v is the XPath number of one node: X.Number(); number(string-value(node)) spelled out with the
+// package's own string-to-number conversion; or a call of a helper of the package every return of which is one of
+// these.
+func (w *World) isNumberOfNode(v ssa.Value, depth int) bool {
+	if depth > 3 {
+		return false
+	}
+	v = stripConvAll(v)
+	if _, isNum := isMethodCall(v, "Number"); isNum {
+		return true
+	}
+	c, ok := v.(*ssa.Call)
+	if !ok {
+		return false
+	}
+	sc := staticCallee(c)
+	if sc == nil {
+		return false
+	}
+	if w.isStringToNumber(sc) && len(c.Call.Args) == 1 {
+		if sv, ok := c.Call.Args[0].(*ssa.Call); ok && staticCallee(sv) == w.member("exec", "GetCursorString") {
+			return true
+		}
+		return false
+	}
+	if fnPkgKey(sc) != "exec" || len(sc.Blocks) == 0 || len(sc.Params) != 1 || sc.Signature.Results().Len() != 1 {
+		return false
+	}
+	all, n := true, 0
+	allInstrs(sc, func(in ssa.Instruction) {
+		if ret, ok := in.(*ssa.Return); ok {
+			n++
+			if !w.isNumberOfNode(ret.Results[0], depth+1) {
+				all = false
+			}
+		}
+	})
+	return all && n > 0
 }
